@@ -797,12 +797,10 @@ Proof.
   destruct (z0 =? bank_none); [reflexivity|exact Hb].
 Qed.
 
-Lemma tps_general_refresh c g : tps_ok c = true -> enum4_ok (tpg_bank g) = true ->
-  tps_ok (core_with_general c g) = true.
+Lemma tps_ok_parts st : tps_ok st = true ->
+  enum4_ok (tpg_bank (ts_general st)) = true /\ opt_bank_ok (ts_ps st) = true /\ sample_banks_ok (ts_cp st) = true.
 Proof.
-  unfold tps_ok, core_with_general. cbn [ts_general ts_ps ts_cp]. intros H Hg.
-  apply andb_true_iff in H. destruct H as [H H3]. apply andb_true_iff in H. destruct H as [_ H2].
-  rewrite Hg, H2, H3. reflexivity.
+  unfold tps_ok. intros H. apply andb_true_iff in H. destruct H as [H H3]. apply andb_true_iff in H. tauto.
 Qed.
 
 Lemma add_control_point_banks st time p tc st' : add_control_point st time p tc = Done st' ->
@@ -875,6 +873,13 @@ Proof. intros H. unfold bmd_pre, bmd_create. cbn [bmd_version]. rewrite H. vm_co
 Lemma general_pre_bank g : general_pre g = true -> enum4_ok (g_default_sample_bank g) = true.
 Proof. unfold general_pre. apply andb_prop_r. Qed.
 
+Lemma tpd_core_ok tp : general_pre (tpd_general tp) = true -> opt_bank_ok (tpd_ps tp) = true ->
+  sample_banks_ok (tpd_cp tp) = true -> tps_ok (tpd_core tp) = true.
+Proof.
+  intros Hg Hp Hc. unfold tps_ok, tpd_core, tpg_of. cbn [ts_general ts_ps ts_cp tpg_bank].
+  rewrite (general_pre_bank _ Hg), Hp, Hc. reflexivity.
+Qed.
+
 Lemma bm_step sec os l : no_lf_line l -> bmd_inv os -> bmd_inv (fst (parser_of bm_parsers sec os l)).
 Proof.
   intros Hl Hos. destruct os as [b|w|]; [|destruct sec; exact I|destruct sec; exact I].
@@ -883,55 +888,63 @@ Proof.
   apply andb_true_iff in Hos. destruct Hos as [Hos Qe]. apply andb_true_iff in Hos. destruct Hos as [Hos Qd].
   apply andb_true_iff in Hos. destruct Hos as [Hos Qm]. apply andb_true_iff in Hos. destruct Hos as [Hos Qed'].
   apply andb_true_iff in Hos. destruct Hos as [Qv Qg].
-  destruct b as [ver ed md co ho]. destruct ho as [tp df ev core]. destruct tp as [gen tcore].
-  cbn [bmd_version bmd_editor bmd_metadata bmd_colors bmd_ho hod_tp hod_difficulty hod_events tpd_general tpd_core] in *.
-  assert (Fin : forall ver' ed' md' co' gen' tcore' df' ev' core',
-            i32_ok ver' = true -> general_pre gen' = true -> editor_ok ed' = true -> metadata_ok md' = true ->
-            difficulty_ok df' = true -> events_pre ev' = true -> colors_ok co' = true -> tps_ok tcore' = true ->
-            bmd_pre (mkBMD ver' ed' md' co' (mkHOD (mkTPD gen' tcore') df' ev' core')) = true).
+  destruct b as [ver ed md co ho]. destruct ho as [tp df ev last curve verts objs].
+  destruct tp as [gen ptime ppt ppd ppe pps pcp].
+  cbn [bmd_version bmd_editor bmd_metadata bmd_colors bmd_ho hod_tp hod_difficulty hod_events tpd_general] in *.
+  destruct (tps_ok_parts _ Qt) as (_ & Tp & Tc). cbn [tpd_core ts_ps ts_cp] in Tp, Tc.
+  assert (Fin : forall ver' ed' md' co' tp' df' ev' last' curve' verts' objs',
+            i32_ok ver' = true -> general_pre (tpd_general tp') = true -> editor_ok ed' = true -> metadata_ok md' = true ->
+            difficulty_ok df' = true -> events_pre ev' = true -> colors_ok co' = true ->
+            opt_bank_ok (tpd_ps tp') = true -> sample_banks_ok (tpd_cp tp') = true ->
+            bmd_pre (mkBMD ver' ed' md' co' (mkHOD tp' df' ev' last' curve' verts' objs')) = true).
   { intros. unfold bmd_pre.
-    cbn [bmd_version bmd_editor bmd_metadata bmd_colors bmd_ho hod_tp hod_difficulty hod_events tpd_general tpd_core].
-    solve_ands. }
+    cbn [bmd_version bmd_editor bmd_metadata bmd_colors bmd_ho hod_tp hod_difficulty hod_events].
+    rewrite (tpd_core_ok tp') by assumption. lsplit; try assumption; reflexivity. }
   destruct sec; cbn [parser_of bm_parsers p_general p_editor p_metadata p_difficulty p_events p_timing_points
                      p_colors p_hit_objects p_variables p_catch_the_beat p_mania];
     unfold liftp, liftt, on_ho, noop; cbn [obind bmd_ho bmd_version bmd_editor bmd_metadata bmd_colors fst].
   - (* General *)
-    unfold hod_parse_general, tpd_parse_general. cbn [hod_tp tpd_general hod_difficulty hod_events hod_core tpd_core].
+    unfold hod_parse_general, tpd_parse_general, hod_with_tp, tpd_with_general.
+    cbn [hod_tp tpd_general hod_difficulty hod_events hod_last hod_curve hod_vertices hod_objects
+         tpd_time tpd_pt tpd_pd tpd_pe tpd_ps tpd_cp].
     pose proof (parse_general_pre gen l Hl Qg) as Hg. destruct (parse_general gen l) as [g r]. cbn [fst] in Hg.
-    cbn [obind fst bmd_inv]. apply Fin; try assumption.
-    apply tps_general_refresh; [exact Qt|]. unfold tpg_of. cbn [tpg_bank]. exact (general_pre_bank g Hg).
+    cbn [obind fst bmd_inv]. apply Fin; cbn [tpd_general tpd_ps tpd_cp]; assumption.
   - (* Editor *)
     unfold bmd_parse_editor. cbn [bmd_editor bmd_version bmd_metadata bmd_colors bmd_ho].
     pose proof (parse_editor_ok ed l Qed') as He. destruct (parse_editor ed l) as [e r]. cbn [fst] in He.
-    cbn [fst bmd_inv]. apply Fin; assumption.
+    cbn [fst bmd_inv]. apply Fin; cbn [tpd_general tpd_ps tpd_cp]; assumption.
   - (* Metadata *)
     unfold bmd_parse_metadata. cbn [bmd_editor bmd_version bmd_metadata bmd_colors bmd_ho].
     pose proof (parse_metadata_ok md l Hl Qm) as Hm. destruct (parse_metadata md l) as [m r]. cbn [fst] in Hm.
-    cbn [fst bmd_inv]. apply Fin; assumption.
+    cbn [fst bmd_inv]. apply Fin; cbn [tpd_general tpd_ps tpd_cp]; assumption.
   - (* Difficulty *)
-    unfold hod_parse_difficulty. cbn [hod_tp tpd_general hod_difficulty hod_events hod_core].
+    unfold hod_parse_difficulty.
+    cbn [hod_tp tpd_general hod_difficulty hod_events hod_last hod_curve hod_vertices hod_objects].
     pose proof (parse_difficulty_ok df l Qd) as Hd. destruct (parse_difficulty df l) as [d r]. cbn [fst] in Hd.
-    cbn [obind fst bmd_inv]. apply Fin; assumption.
+    cbn [obind fst bmd_inv]. apply Fin; cbn [tpd_general tpd_ps tpd_cp]; assumption.
   - (* Events *)
-    unfold hod_parse_events. cbn [hod_tp tpd_general hod_difficulty hod_events hod_core].
+    unfold hod_parse_events.
+    cbn [hod_tp tpd_general hod_difficulty hod_events hod_last hod_curve hod_vertices hod_objects].
     pose proof (parse_events_pre ev l Hl Qe) as He. destruct (parse_events ev l) as [e r]. cbn [fst] in He.
-    cbn [obind fst bmd_inv]. apply Fin; assumption.
+    cbn [obind fst bmd_inv]. apply Fin; cbn [tpd_general tpd_ps tpd_cp]; assumption.
   - (* TimingPoints *)
-    unfold hod_parse_timing_points, tpd_parse_timing_points.
-    cbn [hod_tp tpd_general tpd_core hod_difficulty hod_events hod_core].
-    destruct (parse_timing_points tcore l) as [[c r]|w|] eqn:Et; cbn [obind fst bmd_inv]; try exact I.
-    apply Fin; try assumption. exact (parse_timing_points_banks _ _ _ _ Et Qt).
+    unfold hod_parse_timing_points, tpd_parse_timing_points, hod_with_tp, tpd_with_core.
+    cbn [hod_tp tpd_general hod_difficulty hod_events hod_last hod_curve hod_vertices hod_objects].
+    destruct (parse_timing_points _ l) as [[c r]|w|] eqn:Et; cbn [obind fst bmd_inv]; try exact I.
+    destruct (tps_ok_parts _ (parse_timing_points_banks _ _ _ _ Et Qt)) as (_ & Np & Nc).
+    apply Fin; cbn [tpd_general tpd_ps tpd_cp]; assumption.
   - (* Colours *)
     unfold bmd_parse_colors. cbn [bmd_editor bmd_version bmd_metadata bmd_colors bmd_ho].
     pose proof (parse_colors_ok co l Hl Qc) as Hc. destruct (parse_colors co l) as [c r]. cbn [fst] in Hc.
-    cbn [fst bmd_inv]. apply Fin; assumption.
+    cbn [fst bmd_inv]. apply Fin; cbn [tpd_general tpd_ps tpd_cp]; assumption.
   - (* HitObjects *)
-    unfold hod_parse_hit_objects. cbn [hod_tp tpd_general hod_difficulty hod_events hod_core].
-    destruct (parse_hit_objects core l) as [[c r]|w|]; cbn [obind fst bmd_inv]; try exact I.
-    apply Fin; assumption.
-  - cbn [bmd_inv]. apply Fin; assumption.
-  - cbn [bmd_inv]. apply Fin; assumption.
-  - cbn [bmd_inv]. apply Fin; assumption.
+    unfold hod_parse_hit_objects, hod_with_core.
+    cbn [hod_tp tpd_general hod_difficulty hod_events hod_last hod_curve hod_vertices hod_objects].
+    destruct (parse_hit_objects _ l) as [[c r]|w|]; cbn [obind fst bmd_inv]; try exact I.
+    apply Fin; cbn [tpd_general tpd_ps tpd_cp]; assumption.
+  - cbn [bmd_inv]. apply Fin; cbn [tpd_general tpd_ps tpd_cp]; assumption.
+  - cbn [bmd_inv]. apply Fin; cbn [tpd_general tpd_ps tpd_cp]; assumption.
+  - cbn [bmd_inv]. apply Fin; cbn [tpd_general tpd_ps tpd_cp]; assumption.
 Qed.
 
 Lemma section_loop_inv {S} (ps : parsers S) (P : S -> Prop) (Q : str -> Prop) :
